@@ -24,7 +24,10 @@ lazy_static! {
 pub fn eval_int(expression: Pairs<Rule>) -> i64 {
     PRATT_PARSER
         .map_primary(|primary| match primary.as_rule() {
-            Rule::num => primary.as_str().parse::<i64>().unwrap(),
+            // a literal outside the i64 range saturates instead of panicking
+            Rule::num => primary.as_str().parse::<i64>().unwrap_or_else(|_| {
+                primary.as_str().parse::<f64>().unwrap_or(0.0) as i64
+            }),
             Rule::expr => eval_int(primary.into_inner()),
             _ => unreachable!(),
         })
@@ -39,7 +42,7 @@ pub fn eval_int(expression: Pairs<Rule>) -> i64 {
                     (W(lhs) / W(rhs)).0
                 }
             }
-            Rule::power => lhs.pow(rhs as u32),
+            Rule::power => lhs.wrapping_pow(rhs as u32),
             _ => unreachable!(),
         })
         .parse(expression)
